@@ -126,6 +126,8 @@ def _atom_str(k) -> str:
         return f"sqrt({SQRT_RADICANDS[k]!r})"
     if k[0] == "f":
         return f"{k[1]}" + ("_" + "".join(map(str, k[2])) if k[2] else "")
+    if k[0] == "app":
+        return f"{k[1]}({', '.join(k[2])})"
     return repr(k)
 
 
@@ -347,6 +349,8 @@ class T:
             return str(self.val)
         if self.op == "fun":
             return f"{self.val}(...)"
+        if self.op == "app":
+            return f"{self.val}({', '.join(map(repr, self.args))})"
         return f"{self.op}({', '.join(map(repr, self.args))})"
 
 
@@ -374,6 +378,11 @@ def substitute(t: T, env: dict[str, T]) -> T:
     return T(t.op, tuple(substitute(a, env) for a in t.args), t.val)
 
 
+def app(name: str, *args: T) -> T:
+    """generic function `name` applied to argument terms"""
+    return T("app", tuple(args), name)
+
+
 def normalize(t) -> Rat:
     if isinstance(t, int) and not isinstance(t, bool):
         return C(t)
@@ -387,6 +396,9 @@ def normalize(t) -> Rat:
     if o == "fun":
         name, coords = t.val
         return A(("f", name, (), coords))
+    if o == "app":
+        # a generic (undefined) function applied to argument TERMS: an opaque atom keyed by the normal forms of its arguments
+        return A(("app", t.val, tuple(repr(normalize(a)) for a in t.args)))
     if o == "add":
         return normalize(t.args[0]) + normalize(t.args[1])
     if o == "sub":
@@ -555,7 +567,7 @@ def eval_rat(r: Rat, point: dict) -> float:
             v = math.cos(val(("v", k[1])))
         elif k[0] == "sqrt":
             v = math.sqrt(_eval_poly(SQRT_RADICANDS[k], val))
-        elif k[0] == "f":
+        elif k[0] in ("f", "app"):
             v = 0.21 + (zlib.crc32((repr(k) + repr(sorted(point.get("__salt__", "")))).encode()) % 1000) / 900.0
         else:
             raise AnalysisError(f"algebra: cannot evaluate atom {k!r}")
